@@ -1,7 +1,8 @@
 """C05 - delegation check uses exactly the named role's keys and threshold."""
 import random
 
-from ..engines import delegation, inplace, noise, threads
+from ..engines import hostile, delegation, inplace, noise, threads
+from ..gen import keys as gkeys
 from ..monitors import boundary
 from ..refs import models
 
@@ -88,6 +89,26 @@ def run_shard(spec, rec, lib):
         model, out = judge(case, rec, lib)
         if i % 25 == 7:
             noise.tick(lib, rng, spec.get("scratch"))
+        if out.accepted and model.v == models.ACCEPT and i % 2 == 0:
+            # related neighbour right after an acceptance: the same payload, the entries just verified re-filed under the key
+            # names of a role that lists OTHER keys (nothing verified earlier in the process may count for them)
+            import copy
+
+            role = case["role"]
+            tr2 = copy.deepcopy(case["trusted"])
+            d = tr2["signed"]["delegations"][role]
+            old_keys = list(d["pubkeys"])
+            fresh = [gkeys.key(40 + j).hex for j in range(len(old_keys))]
+            d["pubkeys"] = fresh
+            un2 = copy.deepcopy(case["untrusted"])
+            un2["signatures"] = {fresh[old_keys.index(k)]: v for k, v in un2["signatures"].items() if k in old_keys}
+            judge(dict(case, trusted=tr2, untrusted=un2, stratum="refiled-after-accept:" + case["stratum"]), rec, lib)
+            rec.count("refiled_neighbours_after_accept")
+        if i % 5 == 2:
+            tw = dict(case, stdout=rng.choice(hostile.MODES), stratum="stdout-fails:" + case["stratum"])
+            judge(tw, rec, lib)
+            rec.count("failing_stdout_runs")
+            rec.count("failing_stdout_write_attempts", tw.get("_stdout_write_attempts", 0))
         if i < 2:
             rec.sample({"case": delegation.brief(case), "model": model.as_json(), "observed": out.as_json()})
 
